@@ -183,9 +183,9 @@ type judgeOpts struct {
 
 // faultRec is a fault as the emulator got to see it.
 type faultRec struct {
-	step  int
-	typ   string // documented errorType
-	gen   int
+	step   int
+	typ    string // documented errorType
+	gen    int
 	inInit bool
 }
 
